@@ -200,7 +200,10 @@ class ResendRule(BaseRule):
             return ret(AV("unk", sym=f"{recv.sym or 'kw'}[{k!r}]@entry", tags=frozenset({f"entry:kw.{k}"})))
         if t == "set_file_position":
             a = pos[1] if len(pos) > 1 else kw.get("pos", UNK)
-            return ret(AV("unk", tags=frozenset({"filepos"} | {"prev:" + x for x in a.tags}), sym="body_pos"))
+            b = pos[0] if pos else kw.get("body", UNK)
+            s = st.copy()
+            s.ts["filepos_args"] = (tuple(sorted(b.tags)), tuple(sorted(a.tags)))
+            return [Out("normal", s, AV("unk", tags=frozenset({"filepos"} | {"prev:" + x for x in a.tags}), sym="body_pos"))]
         if t in ("to_str", "_encode_target"):
             a = pos[0] if pos else UNK
             return ret(AV("unk", tags=frozenset(a.tags | {t}), truth=a.truth, none=False))
